@@ -188,8 +188,9 @@ pub fn slotmap_hist<const C: usize>(seq: &[usize], heap: bool) -> R {
                         }
                     }
                 }
-                1 | 2 | 3 => {
-                    let k = if *o == 3 { C } else { (o - 1).min(C.saturating_sub(1)) };
+                // K = min(C, 4) in-range keys plus the out-of-range key C, for insert_at and for remove
+                o if *o >= 1 && *o <= C.min(4) + 1 => {
+                    let k = if o - 1 < C.min(4) { o - 1 } else { C };
                     op(if k >= C { "insert_at(key >= capacity)" } else { "insert_at" });
                     let r = q!(x => x.insert_at(SlotMapKey::new(k), El::new(val)));
                     let exp = k < C;
@@ -200,8 +201,9 @@ pub fn slotmap_hist<const C: usize>(seq: &[usize], heap: bool) -> R {
                         bad!("insert_at_result", "insert_at({}) -> {} model {}", k, r, exp);
                     }
                 }
-                4 | 5 | 6 => {
-                    let k = if *o == 6 { C } else { (o - 4).min(C.saturating_sub(1)) };
+                o if *o >= C.min(4) + 2 && *o <= 2 * C.min(4) + 2 => {
+                    let i = o - (C.min(4) + 2);
+                    let k = if i < C.min(4) { i } else { C };
                     op(if k >= C { "remove(key >= capacity)" } else { "remove" });
                     let r = q!(x => x.remove(SlotMapKey::new(k))).map(|e| e.v());
                     let exp = m.remove(&k);
@@ -566,11 +568,14 @@ fn targets() -> Vec<Target> {
         Target { name: "queue:fixed:cap1", alphabet: 5, run: |s| queue_hist::<1>(s, false) },
         Target { name: "queue:fixed:cap2", alphabet: 5, run: |s| queue_hist::<2>(s, false) },
         Target { name: "queue:fixed:cap3", alphabet: 5, run: |s| queue_hist::<3>(s, false) },
-        Target { name: "slotmap:heap:cap1", alphabet: 7, run: |s| slotmap_hist::<1>(s, true) },
+        Target { name: "slotmap:heap:cap1", alphabet: 5, run: |s| slotmap_hist::<1>(s, true) },
         Target { name: "slotmap:heap:cap2", alphabet: 7, run: |s| slotmap_hist::<2>(s, true) },
-        Target { name: "slotmap:heap:cap3", alphabet: 7, run: |s| slotmap_hist::<3>(s, true) },
+        Target { name: "slotmap:heap:cap3", alphabet: 9, run: |s| slotmap_hist::<3>(s, true) },
+        Target { name: "slotmap:heap:cap4", alphabet: 11, run: |s| slotmap_hist::<4>(s, true) },
         Target { name: "slotmap:fixed:cap2", alphabet: 7, run: |s| slotmap_hist::<2>(s, false) },
-        Target { name: "slotmap:fixed:cap3", alphabet: 7, run: |s| slotmap_hist::<3>(s, false) },
+        Target { name: "slotmap:fixed:cap3", alphabet: 9, run: |s| slotmap_hist::<3>(s, false) },
+        Target { name: "slotmap:fixed:cap4", alphabet: 11, run: |s| slotmap_hist::<4>(s, false) },
+        Target { name: "slotmap:heap:cap6", alphabet: 11, run: |s| slotmap_hist::<6>(s, true) },
         Target { name: "flatmap:heap:cap1", alphabet: 6, run: |s| flatmap_hist::<1>(s, true) },
         Target { name: "flatmap:heap:cap2", alphabet: 6, run: |s| flatmap_hist::<2>(s, true) },
         Target { name: "flatmap:fixed:cap2", alphabet: 6, run: |s| flatmap_hist::<2>(s, false) },
@@ -616,7 +621,7 @@ pub fn run(args: &Args) -> Report {
             continue;
         }
         // exhaustive enumeration of all sequences up to maxlen (alphabet-dependent bound to keep the box comparable)
-        let bound = if t.alphabet >= 19 { maxlen.min(4) } else if t.alphabet >= 10 { maxlen.min(5) } else { maxlen };
+        let bound = if t.alphabet >= 19 { maxlen.min(4) } else if t.alphabet >= 12 { maxlen.min(5) } else { maxlen };
         let mut n = 0u64;
         'len: for len in 0..=bound {
             let mut seq = vec![0usize; len];
